@@ -104,6 +104,16 @@ def nums : List Val → List Rat
 
 def leRat (a b : Rat) : Bool := decide (a ≤ b)
 
+/-- insertion of `x` before the first entry it may precede -/
+def ins {α} (le : α → α → Bool) (x : α) : List α → List α
+  | [] => [x]
+  | y :: t => if le x y then x :: y :: t else y :: ins le x t
+
+/-- stable insertion sort (structural recursion, so that concrete instances can be decided) -/
+def isort {α} (le : α → α → Bool) : List α → List α
+  | [] => []
+  | x :: t => ins le x (isort le t)
+
 /-- median of a sorted list of numbers (NaN for the empty list): the middle one, or the mean of the
     two middle ones -/
 def medianSorted (s : List Rat) : Val :=
@@ -112,7 +122,7 @@ def medianSorted (s : List Rat) : Val :=
   else if n % 2 = 1 then .num (s.getD (n / 2) 0)
   else .num ((s.getD (n / 2 - 1) 0 + s.getD (n / 2) 0) / 2)
 
-def median (l : List Rat) : Val := medianSorted (l.mergeSort leRat)
+def median (l : List Rat) : Val := medianSorted (isort leRat l)
 
 /-- `np.nanmedian` -/
 def nanmedian (l : List Val) : Val := median (nums l)
@@ -186,8 +196,8 @@ def absLe : Val → Val → Bool
   | .nan, .nan => true
 
 /-- `valid_neighbors[np.argsort(np.abs(valid_neighbors))[1]]`  (argsort on 8 entries is a stable
-    insertion sort, NaN last: modelled by the stable `mergeSort` of the values by `|·|`) -/
-def secondLowestAbs (vn : List Val) : Val := (vn.mergeSort absLe).getD 1 .nan
+    insertion sort, NaN last: the values themselves are sorted by `|·|`, stably) -/
+def secondLowestAbs (vn : List Val) : Val := (isort absLe vn).getD 1 .nan
 
 /-- one pixel of `interpolate_occlusion_sgm` -/
 def occlSgmPixel (m : DMap) (r c : Nat) : Val × Nat :=
@@ -346,38 +356,79 @@ structure Clause where
   applies : Bool
   holds : Bool
 
+/-- what every clause looks at: the pixel before / after, its kind, its sources -/
+structure View where
+  f : Nat          -- flag word before
+  g : Nat          -- flag word after
+  din : Val        -- disparity before
+  dout : Val       -- disparity after
+  k : Kind
+  src : List Rat
+  border : Bool    -- inside the border of width `offset_row_col > 0`
+
+def viewAt (meth : Method) (off : Nat) (a b : DMap) (r c : Nat) : View :=
+  { f := a.flag r c, g := b.flag r c, din := a.disp r c, dout := b.disp r c,
+    k := kindOf meth a r c, src := sourcesOf meth a b r c,
+    border := decide (off > 0) && isBorder a off r c }
+
+/-- the pixel was flagged and is not any more -/
+def View.filled (v : View) : Bool := flagged v.f && !flagged v.g
+
+/-- only pixels flagged 8 or 9 can change: every other pixel keeps disparity and flags bit for bit -/
+def cUnflagged (v : View) : Clause :=
+  { name := "unflagged_untouched", applies := !flagged v.f, holds := v.dout == v.din && v.g == v.f }
+
+/-- a flagged pixel ends with bit 8 replaced by 4 / bit 9 by 5 (sgm: 9 by 4 through 8), or as it was -/
+def cFilledBits (v : View) : Clause :=
+  { name := "filled_bits", applies := flagged v.f && !v.border,
+    holds := v.g == filledFlag v.k v.f || v.g == unfilledFlag v.k v.f }
+
+/-- a filled pixel has a finite disparity -/
+def cFilledFinite (v : View) : Clause :=
+  { name := "filled_finite", applies := v.filled && !v.border, holds := v.dout.isNum }
+
+/-- … taken from, or the median of, the valid pixels found along the scan directions -/
+def cFilledFromValid (meth : Method) (v : View) : Clause :=
+  { name := "filled_from_valid", applies := v.filled && !v.border && v.dout.isNum,
+    holds := valueOK meth v.k v.src v.dout }
+
+/-- … hence between the smallest and the largest valid disparity of the map -/
+def cFilledBetween (a : DMap) (v : View) : Clause :=
+  { name := "filled_between_min_max", applies := v.filled && !v.border && v.dout.isNum,
+    holds := betweenValid a v.dout.get }
+
+/-- a flagged pixel for which no valid pixel can be found stays flagged invalid -/
+def cNoSource (v : View) : Clause :=
+  { name := "no_source_stays_invalid", applies := flagged v.f && !v.border && v.src.isEmpty,
+    holds := isInvalid v.g && flagged v.g }
+
+/-- (not in the statement, documented behaviour) a flagged pixel with enough sources is filled -/
+def cFilledWhenSource (meth : Method) (v : View) : Clause :=
+  { name := "filled_when_source", applies := flagged v.f && !v.border && enoughSources meth v.k v.src.length,
+    holds := !flagged v.g }
+
+/-- sgm: a mismatch is handled as an occlusion exactly when it touches one -/
+def cSgmMismatch (meth : Method) (touches : Bool) (v : View) : Clause :=
+  { name := "sgm_mismatch_to_occlusion",
+    applies := decide (meth = .sgm) && hasBit v.f mismatch && !hasBit v.f occlusion && !v.border,
+    holds := if touches
+             then v.g == replaceBit v.f mismatch occlusion || v.g == replaceBit v.f mismatch filledOcclusion
+             else v.g == v.f || v.g == replaceBit v.f mismatch filledMismatch }
+
+/-- border pixels end with bit 0 only -/
+def cBorder (v : View) : Clause :=
+  { name := "border_bit0_only", applies := v.border, holds := v.g == leftNodataOrBorder }
+
+def Clause.ok (cl : Clause) : Bool := !cl.applies || cl.holds
+
 /-- All clauses of C14 at pixel `(r, c)`: `a` = map before filling, `b` = map after. -/
 def clausesAt (meth : Method) (off : Nat) (a b : DMap) (r c : Nat) : List Clause :=
-  let f := a.flag r c
-  let g := b.flag r c
-  let k := kindOf meth a r c
-  let src := sourcesOf meth a b r c
-  let isFlagged := flagged f
-  let border := decide (off > 0) && isBorder a off r c
-  let filled := isFlagged && !flagged g
-  [ { name := "unflagged_untouched", applies := !isFlagged,
-      holds := b.disp r c == a.disp r c && g == f },
-    { name := "filled_bits", applies := isFlagged && !border,
-      holds := g == filledFlag k f || g == unfilledFlag k f },
-    { name := "filled_finite", applies := filled && !border,
-      holds := (b.disp r c).isNum },
-    { name := "filled_from_valid", applies := filled && !border && (b.disp r c).isNum,
-      holds := valueOK meth k src (b.disp r c) },
-    { name := "filled_between_min_max", applies := filled && !border && (b.disp r c).isNum,
-      holds := betweenValid a ((b.disp r c).get) },
-    { name := "no_source_stays_invalid", applies := isFlagged && !border && src.isEmpty,
-      holds := isInvalid g && flagged g },
-    { name := "filled_when_source", applies := isFlagged && !border && enoughSources meth k src.length,
-      holds := !flagged g },
-    { name := "sgm_mismatch_to_occlusion", applies := decide (meth = .sgm) && hasBit f mismatch && !hasBit f occlusion,
-      holds := if touchesOcclusion a r c
-               then g == replaceBit f mismatch occlusion || g == replaceBit f mismatch filledOcclusion
-               else g == f || g == replaceBit f mismatch filledMismatch },
-    { name := "border_bit0_only", applies := border,
-      holds := g == leftNodataOrBorder } ]
+  let v := viewAt meth off a b r c
+  [cUnflagged v, cFilledBits v, cFilledFinite v, cFilledFromValid meth v, cFilledBetween a v, cNoSource v,
+   cFilledWhenSource meth v, cSgmMismatch meth (touchesOcclusion a r c) v, cBorder v]
 
 def pixelOK (meth : Method) (off : Nat) (a b : DMap) (r c : Nat) : Bool :=
-  (clausesAt meth off a b r c).all fun cl => !cl.applies || cl.holds
+  (clausesAt meth off a b r c).all Clause.ok
 
 /-- the specification of C14 on a whole map -/
 def spec (meth : Method) (off : Nat) (a b : DMap) : Bool :=
